@@ -40,7 +40,7 @@ SIG_RESEED = "grid:resume-with-different-seed:cells-duplicated-or-skipped"
 def candidates(node):
     k, a = node["k"], node["a"]
     if k == "cat":
-        return list(a["choices"])
+        return [math.nan if c == "nan!" else c for c in a["choices"]]
     if k == "int":
         return list(range(a["low"], a["high"] + 1, a.get("step", 1)))
     lo, st = decimal.Decimal(str(a["low"])), decimal.Decimal(str(a["step"]))
@@ -141,7 +141,9 @@ def shape_to_tree(rng, shape, p_bad, names_mode):
         kind_of[name] = kind
         if kind == "cat" and name not in cat_choices:
             opts = [c for c in _CAT_POOL if len(c) == k] or [[f"o{j}" for j in range(k)]]
-            cat_choices[name] = rng.choice(opts)
+            cat_choices[name] = list(rng.choice(opts))
+            if rng.random() < 0.15:       # NaN is a legal categorical choice; "nan!" becomes the ONE shared math.nan object
+                cat_choices[name][rng.randrange(k)] = "nan!"
         node = {"n": name, "k": "int" if kind == "lint" else kind, "a": _domain(rng, kind, k, name, cat_choices)}
         node["ch"] = [build(c, used | {name}, depth + 1) for c in s]
         return node
@@ -200,7 +202,7 @@ def _mk_storage(kind, path):
 def _suggest(trial, node):
     k, a = node["k"], node["a"]
     if k == "cat":
-        return trial.suggest_categorical(node["n"], a["choices"])
+        return trial.suggest_categorical(node["n"], _denan(a["choices"]))
     if k == "int":
         return trial.suggest_int(node["n"], a["low"], a["high"], step=a.get("step", 1), log=a.get("log", False))
     return trial.suggest_float(node["n"], a["low"], a["high"], step=a["step"])
@@ -432,9 +434,10 @@ def gen_bf(ctx, shape, fam, names_mode=None):
     if sc["seed"] is None:
         sc["seed"] = rng.randint(0, 2**31 - 1)
     r = rng.random()
-    if r < 0.01:
+    has_nan = "nan!" in json.dumps(prog)
+    if r < 0.01 or (has_nan and r < 0.2):
         sc["storage"] = "sqlite"
-    elif r < 0.08:
+    elif r < 0.08 or (has_nan and r < 0.7):      # a stored NaN comes back as a NEW object per trial
         sc["storage"] = "journal"
     if fam == "bf-main":
         if L >= 3 and rng.random() < 0.3:
